@@ -1341,6 +1341,22 @@ func c20Witnesses(r *Rec) {
 		p.EnableBondVerifiers = false
 		ep.upsert(p)
 	}
+	// 2b. an UpsertDapp proposal enacted AFTER its dApp missed the minimum bond and was removed (submitted and voted while it
+	// was bootstrapping): nothing to update - the removed dApp does not come back, with whatever bond the proposal remembers
+	for _, snapBond := range []int64{1 * l2unit, 3 * l2unit} {
+		r.Mark("upsert enacted after the removal of its dApp")
+		ep := newL2Ep(r, 3, []string{"alpha"}, []string{"alp"}, 1, 5, 100, -1)
+		d := ep.mkDapp("alpha", "alp", "0.5", 50, 0, 0, "0.01", 1, 1)
+		ep.create(1, d, "ukex", 1*l2unit)
+		ep.bond(2, "alpha", "ukex", snapBond-l2unit+1000)
+		p := ep.k.GetDapp(ep.ctx, "alpha") // the snapshot the proposal carries
+		ep.reclaim(2, "alpha", "ukex", snapBond-l2unit+1000-1) // all but one unit (a zero record would block the refund: recorded finding)
+		ep.reclaim(1, "alpha", "ukex", l2unit/2)
+		ep.endBlock(101) // the bootstrap period ends below the minimum: every bonder refunded, the dApp removed
+		ep.upsert(p)
+		ep.endBlock(6)
+		ep.endBlock(6)
+	}
 	// 3. name-prefix collision: the refund of dApp "x" also pays the bonder of dApp "xy", whose record stays
 	{
 		r.Mark("witness refund prefix collision")
